@@ -313,12 +313,23 @@ func (ck *Check) listerWiring(rule string) {
 				// stored under the same element's name
 				stored := false
 				var gotKey string
+				noteStore := func(mu *ssa.MapUpdate) {
+					kt := ctx.Term(mu.Key)
+					gotKey = kt.String()
+					if optsT != nil && kt.Kind == "field" && kt.Obj == fName && kt.Args[0].Key() == optsT.Key() {
+						stored = true
+					}
+				}
 				for _, r := range *c.Referrers() {
 					if mu, ok := r.(*ssa.MapUpdate); ok && mu.Value == ssa.Value(c) {
-						kt := ctx.Term(mu.Key)
-						gotKey = kt.String()
-						if optsT != nil && kt.Kind == "field" && kt.Obj == fName && kt.Args[0].Key() == optsT.Key() {
-							stored = true
+						noteStore(mu)
+					}
+					// the store hoisted below the if / else that picks the constructor: the merged value
+					if ph, ok := r.(*ssa.Phi); ok {
+						for _, rr := range *ph.Referrers() {
+							if mu, ok := rr.(*ssa.MapUpdate); ok && mu.Value == ssa.Value(ph) {
+								noteStore(mu)
+							}
 						}
 					}
 				}
